@@ -53,4 +53,151 @@ def make(tier):
     for f in tc_jobs:
         u.contract(f, cls='P', backends=['sat', 'cvc5'], timeout=300,
                    what='truncation_check<D>(s) has a value exactly when s is representable in D, and then the value is s')
+    make_math(P, tier)
+    make_enum(P, tier)
     return P
+
+
+UNS = [t for t in INTS if not t[2]]
+SIG = [t for t in INTS if t[2]]
+CTY = {'i8': 'signed char', 'u8': 'unsigned char', 'i16': 'short', 'u16': 'unsigned short', 'i32': 'int', 'u32': 'unsigned int', 'i64': 'long', 'u64': 'unsigned long'}
+
+
+def pow2_disj(x, w):
+    return '(' + ' || '.join('%s == ((u64)1 << %d)' % (x, k) for k in range(w)) + ')'
+
+
+def make_math(P, tier):
+    shim = HDR + '''#include <fcppt/math/log2.hpp>
+#include <fcppt/math/next_power_of_2.hpp>
+#include <fcppt/math/is_power_of_2.hpp>
+#include <fcppt/math/power_of_2.hpp>
+#include <fcppt/math/ceil_div.hpp>
+#include <fcppt/math/ceil_div_signed.hpp>
+#include <fcppt/math/div.hpp>
+#include <fcppt/math/mod.hpp>
+#include <fcppt/math/clamp.hpp>
+#include <fcppt/math/diff.hpp>
+#include <fcppt/bit/shifted_mask.hpp>
+#include <fcppt/bit/shift_count.hpp>
+#include <fcppt/bit/test.hpp>
+#include <fcppt/bit/mask.hpp>
+'''
+    spec = ''
+    jobs = []   # (fn key, kwargs)
+    for (n, t, s, w) in UNS:
+        c = CTY[n]
+        # instantiate the real scalar templates (contracts attach to the real functions by demangled name)
+        shim += 'extern "C" bool vf_ip2_%s(%s x){ return fcppt::math::is_power_of_2(x); }\n' % (n, t)
+        shim += 'extern "C" %s vf_np2_%s(%s x){ return fcppt::math::next_power_of_2(x); }\n' % (t, n, t)
+        shim += 'extern "C" %s vf_log2_%s(%s x){ return fcppt::math::log2(x); }\n' % (t, n, t)
+        f = 'bool fcppt::math::is_power_of_2<%s>(%s)' % (c, c)
+        spec += 'function %s\n  __CPROVER_assigns()\n  __CPROVER_ensures(__CPROVER_return_value == %s)\n' % (f, pow2_disj('x', w))
+        jobs.append((f, dict(cls='P', what='is_power_of_2(x) holds exactly when x = 2^k for some k < width')))
+        f = '%s fcppt::math::next_power_of_2<%s>(%s)' % (c, c, c)
+        spec += 'function %s\n  __CPROVER_requires((u64)_value <= ((u64)1 << %d))\n  __CPROVER_assigns()\n' % (f, w - 1)
+        spec += '  __CPROVER_ensures(%s)\n' % pow2_disj('__CPROVER_return_value', w)
+        spec += '  __CPROVER_ensures(__CPROVER_return_value >= _value)\n'
+        spec += '  __CPROVER_ensures(_value == 0 ? __CPROVER_return_value == 1 : (__CPROVER_return_value >> 1) < _value)\n'
+        if n == 'u32':
+            spec += '''  loop 0
+    __CPROVER_loop_invariant(ret >= 1 && (ret & (ret-1))==0 && counter >= 1 && ret <= _value_addr && (u64)counter*ret <= _value_addr && (u64)(counter+1)*ret > _value_addr && _value_addr == _value && (_value & (_value-1)) != 0)
+    __CPROVER_decreases(counter)
+'''
+            jobs.append((f, dict(cls='P', loops=True, replace=['bool fcppt::math::is_power_of_2<unsigned int>(unsigned int)'], timeout=600,
+                                 what='next_power_of_2(x): a power of two, >= x, and half of it < x (1 for 0); loop closed by invariant + decreases')))
+        else:
+            jobs.append((f, dict(cls='W', unwind=w + 2, bound='loop bounded by operand width (%d iterations), unwinding assertion on' % w, timeout=900,
+                                 what='next_power_of_2(x): a power of two, >= x, and half of it < x (1 for 0)')))
+        f = '%s fcppt::math::log2<%s>(%s)' % (c, c, c)
+        spec += 'function %s\n  __CPROVER_requires(x != 0)\n  __CPROVER_assigns()\n' % (f,)
+        spec += '  __CPROVER_ensures(__CPROVER_return_value < %d && (((u64)x >> __CPROVER_return_value) == 1))\n' % w
+        jobs.append((f, dict(cls='W', unwind=w + 2, bound='loop bounded by operand width (%d iterations), unwinding assertion on' % w, timeout=900,
+                             what='log2(x) = floor(log2 x): x >> r == 1, for every x != 0 (documented precondition)')))
+    # power_of_2<R,E>
+    for (rn, rt, rs, rw) in [INTS[1], INTS[5], INTS[7], INTS[4]]:
+        f = 'vf_pow2_%s' % rn
+        shim += 'extern "C" %s %s(unsigned e){ return fcppt::math::power_of_2<%s>(e); }\n' % (rt, f, rt)
+        lim = rw - 1 if rs else rw
+        spec += 'function %s\n  __CPROVER_requires(e < %d)\n  __CPROVER_assigns()\n  __CPROVER_ensures((u64)__CPROVER_return_value == ((u64)1 << e))\n' % (f, lim)
+        jobs.append((f, dict(cls='P', what='power_of_2<R>(e) == 2^e whenever 2^e is representable in R')))
+    # shifted_mask / test
+    shim += 'extern "C" std::uint32_t vf_shifted_mask_u32(unsigned b){ return fcppt::bit::shifted_mask<std::uint32_t>(fcppt::bit::shift_count{b}).get(); }\n'
+    spec += 'function vf_shifted_mask_u32\n  __CPROVER_requires(b < 32)\n  __CPROVER_assigns()\n  __CPROVER_ensures(__CPROVER_return_value == ((u32)1 << b))\n'
+    jobs.append(('vf_shifted_mask_u32', dict(cls='P', what='shifted_mask(b) has exactly bit b set')))
+    shim += 'extern "C" bool vf_bit_test_u32(std::uint32_t v, std::uint32_t m){ return fcppt::bit::test(v, fcppt::bit::mask<std::uint32_t>{m}); }\n'
+    spec += 'function vf_bit_test_u32\n  __CPROVER_assigns()\n  __CPROVER_ensures(__CPROVER_return_value == ((v & m) != 0))\n'
+    jobs.append(('vf_bit_test_u32', dict(cls='P', what='bit::test(v, mask) holds exactly when v and mask share a set bit')))
+    # ceil_div / div / mod (unsigned, 32 and 64 bit: narrower types are rejected at compile time)
+    for (n, t, s, w) in [INTS[5], INTS[7]]:
+        for (fn, call, post) in [('ceil_div', 'fcppt::math::ceil_div(a, b)', '*out == a / b + (a % b != 0 ? 1 : 0)'),
+                                 ('div', 'fcppt::math::div(a, b)', '*out == a / b'),
+                                 ('mod', 'fcppt::math::mod(a, b)', '*out == a % b')]:
+            f = 'vf_%s_%s' % (fn, n)
+            shim += 'extern "C" bool %s(%s a, %s b, %s *out){ auto r = %s; VF_OPT(r, out); }\n' % (f, t, t, t, call)
+            spec += 'function %s\n  __CPROVER_requires(__CPROVER_is_fresh(out, sizeof(*out)))\n  __CPROVER_assigns(*out)\n' % f
+            spec += '  __CPROVER_ensures(__CPROVER_return_value == (b != 0))\n  __CPROVER_ensures(VF_IMP(__CPROVER_return_value, %s))\n' % post
+            jobs.append((f, dict(cls='P', backends=['cvc5', 'z3', 'sat'], stagger=3, timeout=600,
+                                 what='%s: empty exactly for a zero divisor, otherwise the exact quotient/remainder' % fn)))
+    # signed division helpers
+    for (n, t, s, w) in [INTS[4], INTS[6]]:
+        MIN = '((%s)1 << %d)' % ('u%d' % w, w - 1)
+        f = 'vf_div_%s' % n
+        shim += 'extern "C" bool %s(%s a, %s b, %s *out){ auto r = fcppt::math::div(a, b); VF_OPT(r, out); }\n' % (f, t, t, t)
+        spec += 'function %s\n  __CPROVER_requires(__CPROVER_is_fresh(out, sizeof(*out)))\n  __CPROVER_requires(!(a == %s && (%s)b == -1))\n  __CPROVER_assigns(*out)\n' % (f, MIN, n)
+        spec += '  __CPROVER_ensures(__CPROVER_return_value == (b != 0))\n  __CPROVER_ensures(VF_IMP(__CPROVER_return_value, (%s)*out == (%s)a / (%s)b))\n' % (n, n, n)
+        jobs.append((f, dict(cls='P', backends=['cvc5', 'z3', 'sat'], stagger=3, timeout=600, what='div (signed): empty exactly for a zero divisor, otherwise a / b (quotient representable)')))
+        f = 'vf_ceil_div_signed_%s' % n
+        shim += 'extern "C" bool %s(%s a, %s b, %s *out){ auto r = fcppt::math::ceil_div_signed(a, b); VF_OPT(r, out); }\n' % (f, t, t, t)
+        spec += 'function %s\n  __CPROVER_requires(__CPROVER_is_fresh(out, sizeof(*out)))\n  __CPROVER_requires(!(a == %s && (%s)b == -1))\n  __CPROVER_assigns(*out)\n' % (f, MIN, n)
+        spec += '  __CPROVER_ensures(__CPROVER_return_value == (b != 0))\n'
+        # ceil(a/b) from the truncating quotient and remainder: one more exactly when the remainder is non-zero and has the sign of the divisor
+        spec += '  __CPROVER_ensures(VF_IMP(__CPROVER_return_value, (%s)*out == (%s)a / (%s)b + (((%s)a %% (%s)b != 0 && (((%s)a %% (%s)b < 0) == ((%s)b < 0))) ? 1 : 0)))\n' % ((n,) * 8)
+        jobs.append((f, dict(cls='P', backends=['cvc5', 'z3', 'sat'], stagger=3, timeout=600,
+                             what='ceil_div_signed(a, b): empty exactly for b == 0, otherwise a / b rounded towards +infinity (quotient representable)')))
+    # clamp / diff for all eight types
+    for (n, t, s, w) in INTS:
+        f = 'vf_clamp_%s' % n
+        shim += 'extern "C" bool %s(%s x, %s lo, %s hi, %s *out){ auto r = fcppt::math::clamp(x, lo, hi); VF_OPT(r, out); }\n' % (f, t, t, t, t)
+        X, LO, HI, O = wide(n, s, 'x'), wide(n, s, 'lo'), wide(n, s, 'hi'), wide(n, s, '*out')
+        spec += 'function %s\n  __CPROVER_requires(__CPROVER_is_fresh(out, sizeof(*out)))\n  __CPROVER_assigns(*out)\n' % f
+        spec += '  __CPROVER_ensures(__CPROVER_return_value == (%s <= %s))\n' % (LO, HI)
+        spec += '  __CPROVER_ensures(VF_IMP(__CPROVER_return_value, %s == (%s < %s ? %s : (%s > %s ? %s : %s))))\n' % (O, X, LO, LO, X, HI, HI, X)
+        jobs.append((f, dict(cls='P', what='clamp: empty exactly for an empty interval (lo > hi), otherwise max(lo, min(x, hi))')))
+        f = 'vf_diff_%s' % n
+        shim += 'extern "C" %s %s(%s a, %s b){ return fcppt::math::diff(a, b); }\n' % (t, f, t, t)
+        A, B = wide(n, s, 'a'), wide(n, s, 'b')
+        D = '(%s < %s ? %s - %s : %s - %s)' % (A, B, B, A, A, B)
+        spec += 'function %s\n  __CPROVER_requires(%s <= %s)\n  __CPROVER_assigns()\n' % (f, D, lit(mx(s, w)))
+        spec += '  __CPROVER_ensures(%s == %s)\n' % (wide(n, s, '__CPROVER_return_value'), D)
+        jobs.append((f, dict(cls='P', what='diff(a, b) == |a - b| whenever |a - b| is representable')))
+    P.generated['math.cpp'] = shim
+    P.generated['math.spec'] = spec
+    u = P.unit('math', 'math.cpp', specs=['math.spec'], sroa=False)
+    for f, kw in jobs:
+        kw.setdefault('backends', ['sat', 'cvc5', 'z3'])
+        u.contract(f, **kw)
+
+
+def make_enum(P, tier):
+    shim = HDR + '''#include <fcppt/enum/from_int.hpp>
+enum class e3_u8 : unsigned char { a, b, c, fcppt_maximum = c };
+enum class e1_u8 : unsigned char { a, fcppt_maximum = a };
+enum class e3_int { a, b, c, fcppt_maximum = c };
+enum class e300_u16 : unsigned short { first = 0, last = 299, fcppt_maximum = last };
+enum class e200_u8 : unsigned char { first = 0, last = 199, fcppt_maximum = last };
+'''
+    spec = ''
+    u_jobs = []
+    for (en, ut, size) in [('e3_u8', 'unsigned char', 3), ('e1_u8', 'unsigned char', 1), ('e3_int', 'int', 3), ('e300_u16', 'unsigned short', 300), ('e200_u8', 'unsigned char', 200)]:
+        for (n, t, s, w) in UNS:
+            f = 'vf_from_int_%s_%s' % (en, n)
+            shim += 'extern "C" bool %s(%s v, unsigned long *out){ auto r = fcppt::enum_::from_int<%s>(v); if (r.has_value()) { *out = static_cast<unsigned long>(static_cast<%s>(r.get_unsafe())); return true; } return false; }\n' % (f, t, en, ut)
+            spec += 'function %s\n  __CPROVER_requires(__CPROVER_is_fresh(out, sizeof(*out)))\n  __CPROVER_assigns(*out)\n' % f
+            spec += '  __CPROVER_ensures(__CPROVER_return_value == ((u64)v < %d))\n  __CPROVER_ensures(VF_IMP(__CPROVER_return_value, *out == (u64)v))\n' % size
+            u_jobs.append(f)
+    P.generated['enum.cpp'] = shim
+    P.generated['enum.spec'] = spec
+    u = P.unit('enum', 'enum.cpp', specs=['enum.spec'], sroa=True)
+    for f in u_jobs:
+        u.contract(f, cls='P', backends=['sat', 'cvc5'], what='from_int<E>(v) yields the enumerator with value v exactly when v < size(E)')
